@@ -64,7 +64,13 @@ from apischema.serialization.serialized_methods import (
 )
 from apischema.type_names import TypeNameFactory, get_type_name
 from apischema.types import AnyType, NoneType, Undefined, UndefinedType
-from apischema.typing import get_args, get_origin, is_typed_dict, is_union
+from apischema.typing import (
+    get_args,
+    get_origin,
+    is_new_type,
+    is_typed_dict,
+    is_union,
+)
 from apischema.utils import (
     context_setter,
     get_origin_or_type,
@@ -134,6 +140,7 @@ class SchemaBuilder(
         super().__init__(default_conversion)
         self.additional_properties = additional_properties
         self._ignore_first_ref = ignore_first_ref
+        self._inline_new_types = False
         self.ref_factory = ref_factory
         self.refs = refs
 
@@ -217,6 +224,7 @@ class SchemaBuilder(
     ) -> JsonSchema:
         with context_setter(self):
             self._ignore_first_ref = True
+            self._inline_new_types = True  # NewType of a named NewType
             key = self.visit(key_type)
         if "type" not in key or key["type"] != JsonType.STRING:
             raise ValueError("Mapping types must have string-convertible keys")
@@ -441,6 +449,8 @@ class SchemaBuilder(
                     ):
                         return self.visit(Union[tuple(rec_subclasses(tp))])
                     return ref_schema
+            if self._inline_new_types and is_new_type(tp):
+                self._ignore_first_ref = True  # inline its super type too
             if get_args(tp):
                 schema = merge_schema(schema, get_schema(get_origin_or_type(tp)))
             schema = merge_schema(schema, get_schema(tp))
